@@ -302,7 +302,8 @@ Fixpoint bytes_be (n : nat) (x : N) : list N :=
   end.
 
 (* ------------------------------------------------------------------ known answers *)
-(* worked example of the DES literature (key 133457799BBCDFF1, plaintext 0123456789ABCDEF) with its intermediate values *)
+(* worked example of the DES literature (key 133457799BBCDFF1, plaintext 0123456789ABCDEF) with its intermediate values;
+   six-bit and four-bit words are written in decimal: K1 = 000110 110000 001011 101111 111111 000111 000001 110010 = 6 48 11 47 63 7 1 50 *)
 Example ka_worked_K1 :
   nth 0 (des_key_schedule (bytes_be 8 0x133457799BBCDFF1)) [] = [6; 48; 11; 47; 63; 7; 1; 50].
 Proof. vm_compute. reflexivity. Qed.
